@@ -95,6 +95,28 @@ def zero_atom(a):
     return False
 
 
+def canon_atom(a):
+    """identity of the kernels (C07, decided by the kernel checks): for a pair consisting of the SAME train twice the
+    ISI- and SPIKE-profile are 0, every spike is coincident (count = multiplicity), order / directionality are 0.
+    Returns the canonical atom, or None for an atom that is 0.  Without this a wrapper that skips such pairs where the
+    value is known would be reported although the property holds."""
+    try:
+        if a[0] == 'K':
+            # (order / sync profiles share the pair atom between the value and the multiplicity profile: left alone)
+            return None if (a[2] == a[3] and a[1] in ('isi', 'spike')) else a
+        if a[0] in ('A', 'I', 'C', 'M') and isinstance(a[1], tuple) and a[1] and a[1][0] == 'K' and a[1][2] == a[1][3]:
+            m = a[1][1]
+            if m in ('isi', 'spike') or (m == 'order' and a[0] == 'C'):
+                return None
+            if m == 'sync' and a[0] == 'C':
+                return ('M',) + tuple(a[1:])
+        if a[0] == 'd' and a[1] == a[2]:
+            return None
+    except (IndexError, TypeError):
+        pass
+    return a
+
+
 def frac(x):
     if isinstance(x, Fr):
         return x
@@ -113,7 +135,15 @@ class LC(object):
     __array_priority__ = 1000
 
     def __init__(self, t=None, c=0):
-        self.t = {k: v for k, v in (t or {}).items() if v != 0 and not zero_atom(k)}
+        tt = {}
+        for k, v in (t or {}).items():
+            if v == 0 or zero_atom(k):
+                continue
+            k = canon_atom(k)
+            if k is None:
+                continue
+            tt[k] = tt.get(k, 0) + v
+        self.t = {k: v for k, v in tt.items() if v != 0}
         self.c = frac(c)
 
     @staticmethod
